@@ -54,6 +54,7 @@ type layout struct {
 	opts     []dig.ProvideOption // Name / Group / As when given by option
 	variadic bool
 	hasErr   bool
+	errFirst bool
 }
 
 func paramType(p cat.Param) reflect.Type {
@@ -142,7 +143,7 @@ func outStruct(fields []reflect.StructField) reflect.Type {
 
 // newLayout decides the Go signature of a catalog function.
 func newLayout(fn *cat.Fn) (*layout, error) {
-	l := &layout{fn: fn, variadic: fn.Enc.Variadic, hasErr: !fn.Enc.NoErr}
+	l := &layout{fn: fn, variadic: fn.Enc.Variadic, hasErr: !fn.Enc.NoErr, errFirst: fn.Enc.ErrFirst && !fn.Enc.NoErr}
 	// parameters: maximal runs of equal O>0 are objects
 	for i := 0; i < len(fn.Ps); {
 		p := fn.Ps[i]
@@ -240,10 +241,13 @@ func (l *layout) funcType() reflect.Type {
 	if l.variadic {
 		ins = append(ins, reflect.TypeOf([]int(nil)))
 	}
+	if l.hasErr && l.errFirst {
+		outs = append(outs, errType)
+	}
 	for _, g := range l.rs {
 		outs = append(outs, g.typ)
 	}
-	if l.hasErr {
+	if l.hasErr && !l.errFirst {
 		outs = append(outs, errType)
 	}
 	return reflect.FuncOf(ins, outs, l.variadic)
@@ -298,6 +302,9 @@ func (l *layout) make(id string, n int, zero bool) []reflect.Value {
 		return univ.New(ct, univ.Prov{F: id, N: n, I: idx + 1}).Convert(typ)
 	}
 	var outs []reflect.Value
+	if l.hasErr && l.errFirst {
+		outs = append(outs, reflect.Zero(errType))
+	}
 	for _, g := range l.rs {
 		if !g.obj {
 			outs = append(outs, mk(g.idxs[0], g.typ))
@@ -309,10 +316,18 @@ func (l *layout) make(id string, n int, zero bool) []reflect.Value {
 		}
 		outs = append(outs, sv)
 	}
-	if l.hasErr {
+	if l.hasErr && !l.errFirst {
 		outs = append(outs, reflect.Zero(errType))
 	}
 	return outs
+}
+
+// errIndex is the position of the error result among the Go results.
+func (l *layout) errIndex(n int) int {
+	if l.errFirst {
+		return 0
+	}
+	return n - 1
 }
 
 // closureID identifies a func value by the address of its closure object (reflect.MakeFunc
